@@ -1,0 +1,13 @@
+//go:build verif
+
+package magic
+
+// VerifReaderHook, when non-nil, receives the number of bytes still buffered in
+// a pooled bufio.Reader at the moment it is taken from the pool (before Reset).
+var VerifReaderHook func(buffered int)
+
+func verifReaderGet(buffered int) {
+	if h := VerifReaderHook; h != nil {
+		h(buffered)
+	}
+}
